@@ -66,6 +66,7 @@ struct RecOwn {
     RecOwn() : owned(8, 1), moved(false) {}
     RecOwn(const RecOwn&) = default;
     RecOwn& operator=(const RecOwn&) = default;
+    ~RecOwn() { moved = true; }   // a destroyed carrier counts as moved-from
     RecOwn(RecOwn&& o) noexcept : owned(std::move(o.owned)), moved(o.moved) { o.owned.clear(); o.moved = true; }
     RecOwn& operator=(RecOwn&& o) noexcept {
         if (this != &o) { owned = std::move(o.owned); moved = o.moved; o.owned.clear(); o.moved = true; }
@@ -78,10 +79,24 @@ struct RecOwn {
 };
 typedef std::function<bool(const Elem&, const Elem&)> RecFn;
 
-enum Carrier { C_PLAIN = 0, C_FN, C_FN_TMP, C_OWN, C_OWN_TMP, C_OWN_DEFAULT, NUM_CARRIERS };
+enum Carrier { C_PLAIN = 0, C_FN, C_FN_TMP, C_OWN, C_OWN_TMP, C_OWN_DEFAULT, C_NAMED_FROM_TMP, C_FACTORY, NUM_CARRIERS };
 static const char* const carrier_name[NUM_CARRIERS] = {
     "a plain functor", "a std::function (lvalue)", "a std::function (temporary)", "a heap-owning move-sensitive comparator (lvalue)",
-    "a heap-owning move-sensitive comparator (temporary)", "a default-constructed heap-owning move-sensitive comparator"};
+    "a heap-owning move-sensitive comparator (temporary)", "a default-constructed heap-owning move-sensitive comparator",
+    "a named CS_IfSwap built from a temporary comparator", "a CS_IfSwap returned by value from a factory"};
+
+// overwrite dead stack storage between the construction of a named CS_IfSwap and its use
+__attribute__((noinline)) static unsigned scribble() {
+    volatile unsigned char junk[2048];
+    for (size_t i = 0; i < sizeof(junk); ++i) junk[i] = 0x5A;
+    unsigned s = 0;
+    for (size_t i = 0; i < sizeof(junk); i += 97) s += junk[i];
+    return s;
+}
+__attribute__((noinline)) static tlx::sort_networks::CS_IfSwap<RecOwn> make_rec_cswap() {
+    return tlx::sort_networks::CS_IfSwap<RecOwn>(RecOwn());
+}
+static volatile unsigned g_sink;
 
 struct Caller {
     int fam, entry, n, carrier;
@@ -94,6 +109,18 @@ struct Caller {
         case C_OWN: { RecOwn c; return c15::call(fam, entry, n, first, c); }
         case C_OWN_TMP: { RecOwn c; return c15::call<true>(fam, entry, n, first, c); }
         case C_OWN_DEFAULT: return c15::call_default_as<RecOwn>(fam, entry, n, first);
+        case C_NAMED_FROM_TMP: {   // direct entry points only (dispatch: as C_OWN_TMP)
+            if (entry != 0) { RecOwn c; return c15::call<true>(fam, entry, n, first, c); }
+            tlx::sort_networks::CS_IfSwap<RecOwn> cs{RecOwn()};
+            g_sink = scribble();
+            return c15::call_direct(fam, n, first, cs);
+        }
+        case C_FACTORY: {
+            if (entry != 0) { RecOwn c; return c15::call(fam, entry, n, first, c); }
+            tlx::sort_networks::CS_IfSwap<RecOwn> cs = make_rec_cswap();
+            g_sink = scribble();
+            return c15::call_direct(fam, n, first, cs);
+        }
         default: return c15::call(fam, entry, n, first, cmp);
         }
     }
